@@ -243,7 +243,7 @@ def tlc(module, cfg, workers=None, env=None, timeout=1700, simulate=None, depth=
     elif re.search(r"is violated|Temporal properties were violated|Action property .* is violated", r.out):
         mm = re.search(r"(Action property|Temporal property|property) (\S+)", r.out)
         r.violation = mm.group(2) if mm else "property"
-    if re.search(r"The postcondition .* (?:was|is) violated|Checking postcondition.*\n.*false|POSTCONDITION.*violated", r.out, re.I):
+    if re.search(r"The postcondition .* (?:was|is) violated|Postcondition \S+ at line[^\n]* is false|Checking postcondition.*\n.*false|POSTCONDITION.*violated", r.out, re.I):
         r.violation = r.violation or "postcondition"
     if r.violation:
         i = r.out.find("The behavior up to this point is")
@@ -272,12 +272,26 @@ def _first_error(out):
 
 
 def _collect_prints(out):
-    """PrintT output: lines that are not TLC chatter. Values we print start with '<<"' or '"'."""
+    """PrintT output: lines that are not TLC chatter. Values we print start with '<<"' or '"'.
+    TLC wraps long values over several lines: continuation lines are joined until the << >> nest closes."""
     res = []
+    cur = None
     for ln in out.splitlines():
         s = ln.strip()
-        if s.startswith('<<"') or (s.startswith('"') and s.endswith('"')):
+        if cur is not None:
+            cur += " " + s
+            if cur.count("<<") <= cur.count(">>"):
+                res.append(cur); cur = None
+            continue
+        if s.startswith('<<"'):
+            if s.count("<<") <= s.count(">>"):
+                res.append(s)
+            else:
+                cur = s
+        elif s.startswith('"') and s.endswith('"'):
             res.append(s)
+    if cur is not None:
+        res.append(cur)
     return res
 
 
